@@ -892,6 +892,15 @@ def seq_method(engine, st, method, args, dest_ty):
         n = args[1].concrete()
         items = s.items if isinstance(s, VecV) else s.fields
         return IterV([RefV(Cell(VecV([items[j] for j in range(i, i + n)])), 0) for i in range(0, len(items) - n + 1)])
+    if method in ('chunks', 'chunks_exact'):
+        n = args[1].concrete()
+        if n is None or n <= 0:
+            raise Inconclusive(f'{method} with a symbolic or zero chunk size')
+        items = s.items if isinstance(s, VecV) else s.fields
+        stop = len(items) - (len(items) % n) if method == 'chunks_exact' else len(items)
+        return IterV([RefV(Cell(VecV(list(items[i:min(i + n, stop)]))), 0) for i in range(0, stop, n)])
+    if method == 'as_slice':
+        return args[0] if isinstance(args[0], RefV) else RefV(Cell(s), 0)
     if method == 'to_vec':
         items = s.items if isinstance(s, VecV) else s.fields
         return VecV([copy_value(x) for x in items])
